@@ -427,7 +427,9 @@ class Query:
 
         :return: CreateQueryBuilder
         """
-        return CreateQueryBuilder().create_table(table)
+        builder = CreateQueryBuilder()
+        builder.QUERY_CLS = cls  # str()/get_sql() without a context follow the dialect class the statement was started from
+        return builder.create_table(table)
 
     @classmethod
     def drop_table(cls, table: str | Table) -> "DropQueryBuilder":
@@ -439,7 +441,9 @@ class Query:
 
         :return: DropQueryBuilder
         """
-        return DropQueryBuilder().drop_table(table)
+        builder = DropQueryBuilder()
+        builder.QUERY_CLS = cls
+        return builder.drop_table(table)
 
     @classmethod
     def into(cls, table: Table | str, **kwargs: Any) -> "QueryBuilder":
@@ -2315,7 +2319,7 @@ class DropQueryBuilder:
         self._if_exists: bool | None = None
 
     def get_sql(self, ctx: SqlContext | None = None) -> str:
-        ctx = ctx or self.SQL_CONTEXT
+        ctx = ctx or self.QUERY_CLS.SQL_CONTEXT
 
         if not self._drop_table:
             return ""
